@@ -13,7 +13,7 @@ EXPLANATION = (
     "encoding, the message and the coins on top of the optional custom transcript / the default label; "
     "(R3, provenance) threshold, encrypted message, encrypted coins and MAC used by recovery all stem from the one "
     "share obtained first from the collection, the interpolation threshold is that share's threshold and the "
-    "decryption key is the interpolation result; (R4) the J stored in a share is the unmodified send_mac output.  "
+    "decryption key is the interpolation result; (R4) the J stored in a share is the unmodified send_mac output; (R5) Sharks::recover stores shares in collection order and interpolates a window starting at the first stored share, so the share that supplies the ciphertext always contributes its own point (alterations of its x / y change the key).  "
     "NOT decided: MAC unforgeability; the behaviour for specific byte faults (follows from R1-R3 only under the "
     "cryptographic assumption).")
 ASSUMPTIONS = ["strobe_rs::Strobe::recv_mac returns Ok iff the MAC matches the transcript (trusted)"]
@@ -174,6 +174,30 @@ def run(ctx):
                 at, sample={"peek_at": peeks[0]["at"] if peeks else "first()/[0]"})
     else:
         ctx.add("C05.R3", "adss::recover#ok-shape", False, "Ok payload of recover is not a Commune aggregate", at)
+    # ---- R5: the share that supplies the ciphertext takes part in the interpolation ------------------------------
+    # (its point and value are then authenticated through the key): Sharks::recover stores shares in collection order,
+    # the first share is always stored (the distinctness set is empty then), and the window handed to interpolate
+    # starts at index 0.
+    from . import c01
+    engk, retk, stk, frk = ctx.root("star_sharks::Sharks::recover")
+    rootk = "star_sharks::Sharks::recover"
+    pushes = [e for e in Q.calls(engk, "::push", in_fn=rootk)]
+    interp = Q.calls(engk, "star_sharks::share_ff::interpolate", in_fn=rootk)
+    okw = False
+    det = "expected one push and one interpolate call in Sharks::recover (found %d / %d)" % (len(pushes), len(interp))
+    if len(pushes) == 1 and len(interp) == 1:
+        sl = interp[0]["argv"][0]
+        vec = pushes[0]["argv"][0]
+        in_order = Q.path_of(pushes[0]["argv"][1]) in ("shares.*",) and c01._same_coll(sl.args[0], vec) if sl.op == "slice" else False
+        from0 = sl.op == "slice" and sl.args[1].op == "int" and sl.args[1].args[0] == 0
+        pf = Q.closure(engk, engk.facts_at(pushes[0]["frame"], pushes[0]["block"]))
+        ins_guard = any(f[0].op == "set_inserted" and f[1:] == ("eq", 1) for f in pf)
+        okw = in_order and from0 and ins_guard
+        det = "stored in collection order: %s, window starts at 0: %s, stored iff newly inserted x: %s" % (in_order, from0, ins_guard)
+    ctx.add("C05.R5", rootk + "#first-share-is-interpolated", okw,
+            "the first share (which supplies threshold, ciphertexts and MAC) must be among the interpolated points, otherwise its "
+            "share point / value are not authenticated: %s" % det, interp[0]["at"] if interp else ctx.fn(rootk).loc, sample=det)
+    ctx.floor("C05.R5", 1)
     ctx.floor("C05.R1", 3)
     ctx.floor("C05.R2", 8)
     ctx.floor("C05.R3", 7)
